@@ -1,10 +1,12 @@
 (* C45, array variables: used when the bounds of array variables are readable through ExternalLibraryManager *)
-From Coq Require Import String List.
+From Coq Require Import String List ZArith Bool Arith Sorted.
 From C45 Require Import C45Model C45Spec C45Proofs.
+Import ListNotations.
+Local Open Scope string_scope.
 Local Open Scope list_scope.
 Theorem C45_array_variables_bounds_faithful : forall vr g d,
   array_bounds_unreadable vr = false -> dkind d = Behaviour -> let T := symbols vr g d in
-  Forall2 (faithful_var g (dunit d)) (dmps d) (t_mps T) /\ Forall2 (faithful_var g (dunit d)) (desvs d) (t_esvs T) /\
-  Forall2 (faithful_var g (dunit d)) (dparams d ++ builtin_parameters) (t_params T).
+  Forall2 (wf_faithful g (dunit d)) (dsl_mps (ddsl d) (dmps d)) (t_mps T) /\ Forall2 (wf_faithful g (dunit d)) (desvs d) (t_esvs T) /\
+  Forall2 (wf_faithful g (dunit d)) (dsl_params (ddsl d) (dparams d)) (t_params T).
 Proof. exact d2_holds. Qed.
 Print Assumptions C45_array_variables_bounds_faithful.
